@@ -81,6 +81,21 @@ def gen_instance(rng, iid, family='random', nmax_geos=6):
     # many geos that must be in one of the two groups: forced control groups larger than admissible sizes
     elig = [rng.choice(['ct', 'ct', 'ctx', 'ctx', 'c', 'cx']) for _ in range(n)]
     default_elig = False
+  if family == 'truncate' and n >= 3:
+    # n_geos_max binds and the geos that may not be excluded are the SMALL ones (lowest impact)
+    tot = sorted(range(1, n + 1), key=lambda g: sum(v for (gg, _), v in cells.items() if gg == g))
+    elig = [rng.choice(['ctx', 'ctx', 'cx', 'tx']) for _ in range(n)]
+    elig[tot[0] - 1] = rng.choice(['c', 't', 'ct'])
+    if n >= 4 and rng.random() < 0.5:
+      elig[tot[1] - 1] = rng.choice(['c', 't', 'ct'])
+    default_elig = False
+  if family == 'fixedtrt':
+    # geos fixed to treatment: the greedy walk starts from them, whatever their budget
+    elig = [rng.choice(['ctx', 'ctx', 'cx', 'ctx', 'ct']) for _ in range(n)]
+    elig[rng.randrange(n)] = 't'
+    if n >= 4 and rng.random() < 0.4:
+      elig[rng.randrange(n)] = 't'
+    default_elig = False
   if family == 'cancel':
     # must-include treatment-side geos + a minimum treatment size of two + a budget cap between the pair and the singles
     elig = [rng.choice(['ct', 'ct', 't', 'ctx', 'ctx', 'cx']) for _ in range(n)]
@@ -135,11 +150,19 @@ def gen_instance(rng, iid, family='random', nmax_geos=6):
     want_budget = True
     share = (0, 0, 0, 0)
     nmax = 0
+  if family == 'truncate' and n >= 3:
+    nmax = rng.randint(2, n - 1)
+    share = (0, 0, 0, 0)
+    want_budget = False
+  if family == 'fixedtrt':
+    want_budget = True
+    share = (0, 0, 0, 0)
   inst = {'id': iid, 'family': family, 'n': n, 'n_dates': n_dates, 'cells': cells, 'elig': elig,
           'default_elig': default_elig, 'par': p, 'tr': tr, 'cr': cr, 'gtol': gtol, 'vtol': vtol, 'share': share,
           'nmax': nmax, 'want_budget': want_budget, 'budget': None,
-          'budget_mode': rng.choices(['low_half', 'middle', 'high', 'below_all', 'above_all', 'wide'],
-                                     weights=[0.4, 0.15, 0.1, 0.05, 0.05, 0.25])[0],
+          'budget_mode': (rng.choice(['middle', 'high', 'below_all', 'above_all', 'low_half']) if family == 'fixedtrt' else
+                          rng.choices(['low_half', 'middle', 'high', 'below_all', 'above_all', 'wide'],
+                                      weights=[0.4, 0.15, 0.1, 0.05, 0.05, 0.25])[0]),
           'ids_kind': rng.choice(['int', 'str', 'str2']),
           'extra_elig_row': rng.choices([False, 'optional', 'ct', 'c', 't'], weights=[0.8, 0.12, 0.04, 0.02, 0.02])[0],
           'float_ints': rng.random() < 0.15,
@@ -616,8 +639,8 @@ def judge(res, insts, label, nchunks=8):
 
 
 FAMILIES = {
-    'C01': [('random', 0.55), ('constraints', 0.25), ('degenerate', 0.1), ('tiny', 0.1)],
-    'C02': [('constraints', 0.6), ('random', 0.3), ('tiny', 0.1)],
+    'C01': [('random', 0.45), ('constraints', 0.25), ('truncate', 0.12), ('degenerate', 0.09), ('tiny', 0.09)],
+    'C02': [('constraints', 0.5), ('random', 0.27), ('fixedtrt', 0.15), ('tiny', 0.08)],
     'C03': [('random', 0.45), ('constraints', 0.45), ('cancel', 0.1)],
     'C04': [('random', 0.6), ('constraints', 0.4)],
     'C09': [('degenerate', 0.45), ('tiny', 0.25), ('constraints', 0.3)],
